@@ -29,6 +29,9 @@ type c09Params struct {
 type cut struct{ s, e int } // [s, e) of the original text
 
 // splitProject builds the project for a set of nested/disjoint cuts (each either inside or outside every other).
+// c09Lead is written at the start of every piece file (blank lines and a comment are insignificant there).
+var c09Lead = ""
+
 func splitProject(text string, cuts []cut, finalNL bool, crlfPieces bool, dirs ...bool) (impl.Project, func(origIndex int) (string, int)) {
 	pr := impl.Project{Files: map[string]string{}, Root: "root.jst"}
 	useDirs := len(dirs) > 0 && dirs[0]
@@ -83,6 +86,7 @@ func splitProject(text string, cuts []cut, finalNL bool, crlfPieces bool, dirs .
 		p := piece{file: "root.jst"}
 		if self >= 0 {
 			p.file = name(self)
+			b.WriteString(c09Lead)
 		}
 		pos := s
 		for i, c := range cuts {
@@ -235,7 +239,12 @@ func workC09(w *run.W) {
 				return
 			}
 			defer w.End()
+			c09Lead = ""
+			if strings.HasSuffix(name, "-led") {
+				c09Lead = "\n  \n# piece\n\n"
+			}
 			pr, locate := splitProject(text, cuts, finalNL, crlf, strings.HasPrefix(name, "dirs-"))
+			c09Lead = ""
 			w.Count("cuts", 1)
 			w.Nontrivial(showProject(pr))
 			b := pr.Build(dir)
@@ -282,6 +291,9 @@ func workC09(w *run.W) {
 		for i, r := range runs {
 			try("single", []cut{r}, true, false)
 			try("single-no-final-newline", []cut{r}, false, false)
+			if i%2 == 0 {
+				try("single-led", []cut{r}, true, false) // the piece starts with blank lines and a comment
+			}
 			if i%3 == 0 {
 				try("single-crlf-piece", []cut{r}, true, true)
 			}
@@ -465,6 +477,38 @@ func c09Shared(w *run.W, dir string) {
 		cases = append(cases, cs{fmt.Sprintf("shared/resp%d/through-intermediate", ri), u2.String(),
 			impl.Project{Root: "root.jst", Files: map[string]string{"root.jst": sp2.String(), "mid/wrap.jst": "# wrapper\nINCLUDE inner.jst\n", "mid/inner.jst": r}}})
 	}
+	// twins: blocks of identical layout and different content, each in a file of its own (every body has the same
+	// coordinates in every file)
+	twin := func(name string, blocks []string) {
+		var u, sp strings.Builder
+		u.WriteString(head)
+		sp.WriteString(head)
+		files := map[string]string{}
+		for i, b := range blocks {
+			u.WriteString(b)
+			fn := fmt.Sprintf("twin%d.jst", i)
+			sp.WriteString("INCLUDE " + fn + "\n")
+			files[fn] = b
+		}
+		files["root.jst"] = sp.String()
+		cases = append(cases, cs{"twins/" + name, u.String(), impl.Project{Root: "root.jst", Files: files}})
+	}
+	httpTwin := func(n, v string) string {
+		return "POST /" + n + "\n  Query\n  {\"q" + n + "\": " + v + "}\n  Request\n    Headers\n    {\"X-" + n + "\": \"" + v + "\"}\n    Body\n    {\"b" + n + "\": " + v + "}\n  200\n    Headers\n    {\"R-" + n + "\": \"" + v + "\"}\n    Body\n    [\"" + n + "\"]\n  404\n  {\"e" + n + "\": " + v + "}\n"
+	}
+	twin("http", []string{httpTwin("cat", "1"), httpTwin("dog", "2"), httpTwin("pig", "3")})
+	rpcTwin := func(n, v string) string {
+		return "URL /" + n + "\n  Protocol json-rpc-2.0\n  Method m" + n + "\n    Params\n    {\"p" + n + "\": " + v + "}\n    Result\n    [\"" + n + "\", " + v + "]\n"
+	}
+	twin("rpc", []string{rpcTwin("cat", "1"), rpcTwin("dog", "2")})
+	pathTwin := func(n, v string) string {
+		return "GET /" + n + "/{i" + n + "}\n  Path\n  {\"i" + n + "\": " + v + "}\n  200 regex\n  /" + n + "+/\n"
+	}
+	twin("path-and-regex", []string{pathTwin("cat", "1"), pathTwin("dog", "2")})
+	typeTwin := func(n, v string) string {
+		return "TYPE @" + n + "\n{\"k" + n + "\": " + v + "}\nENUM @e" + n + "\n[\"" + n + "\", " + v + "]\n"
+	}
+	twin("types-and-enums", []string{typeTwin("cat", "1"), typeTwin("dog", "2")})
 	for i, c := range cases {
 		if !w.Mine(int64(i)) || !w.Begin(c.name) {
 			continue
